@@ -137,6 +137,26 @@ pub(crate) fn split_os_argument(input: &std::ffi::OsStr) -> Option<(ArgType, Str
             }
         }
 
+        // number of elements used by the first character
+        fn first_char_len(name: &[Elt]) -> usize {
+            #[cfg(unix)]
+            {
+                match name.first() {
+                    Some(b) if *b >= 0xF0 => 4,
+                    Some(b) if *b >= 0xE0 => 3,
+                    Some(b) if *b >= 0xC0 => 2,
+                    _ => 1,
+                }
+            }
+            #[cfg(windows)]
+            {
+                match name.first() {
+                    Some(w) if (0xD800..0xDC00).contains(w) => 2,
+                    _ => 1,
+                }
+            }
+        }
+
         // try to decode elements into a String
         fn str_from_vec(vec: Vec<Elt>) -> Option<String> {
             Some(os_from_vec(vec).to_str()?.to_owned())
@@ -180,11 +200,17 @@ pub(crate) fn split_os_argument(input: &std::ffi::OsStr) -> Option<(ArgType, Str
         loop {
             match items.next() {
                 Some(EQUALS) => {
-                    if ty == ArgType::Short && name.len() > 1 {
-                        let mut body = name.drain(1..).collect::<Vec<_>>();
+                    // length of the first character of the name in elements
+                    let first = if ty == ArgType::Short {
+                        first_char_len(&name)
+                    } else {
+                        0
+                    };
+                    if ty == ArgType::Short && name.len() > first {
+                        let mut body = name.drain(first..).collect::<Vec<_>>();
                         body.push(EQUALS);
                         body.extend(items);
-                        name.truncate(1);
+                        name.truncate(first);
                         let os = Arg::ArgWord(os_from_vec(body));
                         return Some((ty, str_from_vec(name)?, Some(os)));
                     }
